@@ -70,8 +70,12 @@ func state(tc *tcase, u *spec.Unstructured, vals []gval) *tcase {
 
 // one step on the real spec u (described by st) with the value slice vals, compared with the model and judged.
 func (r *runner) useStep(st *tcase, tb *table, u *spec.Unstructured, vals []*value.Value, build bool) *obs {
+	return r.useStepIn(st, tb, u, st.mkSpec(-1, spAny, noHit), vals, build)
+}
+
+// useStepIn: in0 = a fresh copy of u as it is handed in (for the "keeps its Go types" clause).
+func (r *runner) useStepIn(st *tcase, tb *table, u, in0 *spec.Unstructured, vals []*value.Value, build bool) *obs {
 	sc := r.sc
-	in0 := st.mkSpec(-1, spAny, noHit)
 	snap := snapshot(vals)
 	r.noBuild = !build
 	o := r.real(st, u, vals)
